@@ -817,13 +817,6 @@ def gen_foreign_frame(rng, w, m, h, ltype):
     return ['Reject', rng.range(1, 255)]
 
 
-def _abortable(c):
-    """abort() while the connection request is still unanswered is outside the modelled
-    operations (see docs/C09.md, open questions)"""
-    from bumble import l2cap
-    return not (hasattr(c, 'drained') and c.state == l2cap.LeCreditBasedChannel.State.CONNECTING)
-
-
 def _settled(op):
     """the property oracle looks at the implementation only when the event loop is idle"""
     return not (op[0] == 'deliver' and len(op) >= 4 and not op[3])
@@ -1306,7 +1299,8 @@ def gen_campaign(ctx, n):
 
 def run(ctx):
     ctx.rule = ('histories of open (LE credit-based / enhanced x1-5 / classic, served and unserved PSMs, matching '
-                'and mismatching modes), close, abort, write, credit grant, single-frame delivery, flush and link '
+                'and mismatching modes), close, abort (any state), cancellation of an awaiting task, write, credit '
+                'grant, single-frame delivery, flush and link '
                 'loss over three topologies of REAL ChannelManagers on a host shim: pair (one link), star (one '
                 'central, two peripherals), foreign (the harness plays the peer and sends arbitrary signalling '
                 'frames); every history that stays cooperative ends with an audit (reopen every kind in both '
@@ -1315,19 +1309,20 @@ def run(ctx):
                 'A history is non-trivial when it opens and closes/aborts/cuts at least once; distinct by content. '
                 'Plus direct allocator cases (real find_free_* vs model).')
     ctx.assumptions += [
-        'one event = the synchronous handler plus the coroutine continuations it wakes (the event loop is run '
-        'to idle after every event); an event arriving between a response and the continuation of the awaiting '
-        'coroutine is not modelled',
-        'the peer follows ev_ok (Model/ChanMgr.v): fresh CIDs in successful responses, no disconnection '
-        'request for an unanswered connection request, a classic disconnection response only answers a request, '
-        'classic and LE channels do not share a connection',
-        'cancellation of the awaiting task by the caller (asyncio cancel / wait_for timeout) and abort() of a '
-        'channel whose connection request is unanswered are not modelled operations',
+        'one event = the synchronous handler plus the coroutine continuations it wakes; deliveries without a run '
+        'of the event loop before the next event are generated too, except behind refused opens (unregistered '
+        'only when the coroutine resumes) and a cancellation in the same loop iteration as the response it races '
+        'with (such managers are checked by the oracle only)',
+        'the peer follows ev_ok (Model/ChanMgr.v): fresh CIDs in successful responses, distinct CIDs in an '
+        'enhanced request, no disconnection request carrying the null destination CID of a not yet answered LE '
+        'channel, no FCS-on suggestion in a configure response, classic and LE channels do not share a connection',
         'timers do not exist on the modelled paths',
     ]
     ctx.trusted += ['Model/ChanMgr.v is a hand-written reading of bumble/l2cap.py (ChannelManager and the '
                     'connection/disconnection paths of the channel classes), tied to the code by differential '
-                    'execution and by the regenerated Gen/C09Tables.v (CID ranges, per-connection tables, cleanup)',
+                    'execution, by the regenerated Gen/C09Tables.v (CID ranges, per-connection tables, cleanup) and '
+                    'by the regenerated effect skeleton Gen/C09Skeleton.v of the 39 functions it reads '
+                    '(C09_skeleton_matches_source pins their shape, not their meaning)',
                     'the host shim of tools/harness/c09.py (ShimHost/ShimConnection) stands for bumble.host.Host and '
                     'bumble.device.Connection; the order of the two disconnection callbacks is the one of Device']
     cases = []
